@@ -6,6 +6,7 @@ CONSTANTS
   Statuses = {200, 404}
   DropPts = {0, 1, 2, 3, 4}
   TmpOks = {TRUE, FALSE}
+  MoveOks = {TRUE}
   CacheOks = {TRUE}
   Kinds = {"sym", "file"}
   Pres = {TRUE, FALSE}
